@@ -231,6 +231,48 @@ def result_changed(sim, stored: dict) -> dict | None:
     return None
 
 
+def replay_session(table: dict, events: list[dict], ns: list[int], seed, tol: float = 1e-6) -> dict | None:
+    """One Simulator session of spec/ResultViewsSession.tla through the real Simulator: Continue = update parameters
+    + simulate_time_course, GetResult = get_result(), Read = a view of the h-th handed-out result.  Every answer
+    is compared with the specification's view of the segments present when that result was handed out; the
+    stored lists of every handed-out result must stay what they were at hand-out."""
+    from mxlpy import Simulator
+
+    content, sim = table["content"], table["sim"]
+    m = make_model(content, seed)
+    s = Simulator(m, y0={k: float(v) for k, v in fn_to_dict(sim["y0"]).items()})
+    results, stored, k = [], [], 0
+    for step, ev in enumerate(events):
+        try:
+            if ev["e"] == "continue":
+                st = sim["steps"][k]
+                s.update_parameters({n: float(v) for n, v in fn_to_dict(st["pars"]).items()})
+                s.simulate_time_course([float(t) for t in st["times"]])
+                k += 1
+            elif ev["e"] == "get":
+                r = s.get_result().unwrap_or_err()
+                results.append(r)
+                stored.append(snapshot(r))
+                if len(r.raw_variables) != k:
+                    return {"step": step, "event": ev, "what": "a handed-out result does not cover all segments",
+                            "segments": len(r.raw_variables), "simulated": k}
+            else:
+                h, j = ev["h"] - 1, ev["op"] - 1
+                n = ns[h]
+                op = table["ops"][j]
+                obs = perform(results[h], op, table["res"][n - 1], 0)
+                bad = compare(table["answers"][n - 1][j], obs, tol)
+                if bad:
+                    return {"step": step, "event": ev, "op": op, "result_segments": n, **bad}
+        except Exception as e:  # noqa: BLE001  (the library's answer to this history)
+            return {"step": step, "event": ev, "what": "exception", "exc": type(e).__name__, "message": str(e)[:200]}
+        for h, (r, st0) in enumerate(zip(results, stored)):
+            ch = result_changed(r, st0)
+            if ch:
+                return {"step": step, "event": ev, "what": "a handed-out result was changed afterwards", "result": h + 1, **ch}
+    return None
+
+
 # ---------------------------------------------------------------------------------------------------
 # finding keys: from the SHAPE of the failing read
 # ---------------------------------------------------------------------------------------------------
@@ -262,6 +304,17 @@ def classify(content: dict, res: dict, op: dict, detail: dict) -> str | None:
         cols = set(detail["columns"]) if "columns" in detail else {detail.get("name")}
         if cols and cols <= state_dependent_fluxes(content, op["v"]):
             return "scaled-state-dependent-coefficient"
+    return None
+
+
+def classify_session(events: list[dict], detail: dict) -> str | None:
+    """Shape of the pinned-commit defect: the simulator was continued after a result had been handed out, and that
+    result's stored lists grew (its number of segments changed)."""
+    kinds = [e["e"] for e in events[: detail.get("step", len(events)) + 1]]
+    if "get" in kinds and "continue" in kinds[kinds.index("get"):] \
+            and detail.get("what") == "a handed-out result was changed afterwards" \
+            and detail.get("detail") == "number of segments":
+        return "result-shares-simulator-lists"
     return None
 
 
